@@ -91,6 +91,7 @@ Record InvA (s : state) : Prop := {
   a_st : 0 <= stored s <= acked s;
   a_pers : forall v, pers s = Some v -> 0 <= v <= acked s;
   a_late : Forall (fun gv => 0 <= snd gv <= acked s) (late s);
+  a_lacc : Forall (fun p => 0 <= fst p < snd p /\ snd p <= logs s) (lacc s);
   a_head : exists bs tl, epochs s = (resume s, bs) :: tl /\
                          length (concat (rev bs)) = Z.to_nat (cur s - resume s);
   a_eps : Forall (epoch_ok (logs s)) (epochs s)
@@ -107,10 +108,10 @@ Qed.
 
 Lemma InvA_step : forall s e, InvA s -> InvA (fst (step s e)).
 Proof.
-  intros [ps lg st h c pe la m g sl r ep ak ar ds] e
-         [Hres Hcur Hack Hpush Hst Hpers Hlate (bs & tl & Hep & Hlen) Heps].
-  cbn [resume cur logs hnd epochs acked acked_r stored pers late] in *.
-  assert (Hsame : InvA (mk ps lg st h c pe la m g sl r ep ak ar ds)).
+  intros [ps lg st h c pe la lc m g sl r ep ak ar ds] e
+         [Hres Hcur Hack Hpush Hst Hpers Hlate Hlacc (bs & tl & Hep & Hlen) Heps].
+  cbn [resume cur logs hnd epochs acked acked_r stored pers late lacc] in *.
+  assert (Hsame : InvA (mk ps lg st h c pe la lc m g sl r ep ak ar ds)).
   { constructor; cbn; auto. exists bs, tl; auto. }
   Ltac fin bs tl := cbn; constructor; cbn; auto; try lia; try (intros; discriminate);
                     try solve [exists bs, tl; auto].
@@ -118,6 +119,7 @@ Proof.
   - (* Produce *)
     fin bs tl.
     + intros hi Hh. specialize (Hpush hi Hh). lia.
+    + eapply Forall_impl; [|exact Hlacc]. cbn. intros a Ha. lia.
     + eapply Forall_impl; [|exact Heps]. intros a. apply epoch_ok_mono. lia.
   - (* Fetch *)
     destruct h; try exact Hsame.
@@ -142,12 +144,27 @@ Proof.
     destruct (nth_error la k) as [[g0 v]|] eqn:Hn; try exact Hsame.
     pose proof (Forall_nth_error _ _ _ _ Hlate Hn) as Hv. cbn in Hv.
     fin bs tl. apply Forall_remove_nth; auto.
+  - (* LateAccept *)
+    destruct (nth_error lc k) as [[c0 hi]|] eqn:Hn; try exact Hsame.
+    pose proof (Forall_nth_error _ _ _ _ Hlacc Hn) as Hv. cbn in Hv.
+    subst ep. cbn [add_stray].
+    destruct (epoch_ok_push lg c0 [] c0 hi (epoch_ok_nil lg c0 ltac:(lia))
+                ltac:(cbn; lia) ltac:(lia) ltac:(lia)) as [Hok _].
+    inversion Heps as [|x l Hx Hl]; subst.
+    fin bs tl.
+    + intros v Hv'. specialize (Hpers v Hv'). lia.
+    + eapply Forall_impl; [|exact Hlate]. cbn. intros a Ha. lia.
+    + apply Forall_remove_nth; auto.
+    + exists bs, ((c0, [page c0 hi]) :: tl). split; [reflexivity | exact Hlen].
   - (* StopReq *)
     destruct m, h; try exact Hsame; fin bs tl.
   - (* Halt *)
     assert (Hl' : Forall (fun gv : nat * Z => 0 <= snd gv <= ak) (push_late g pe la)).
     { apply Forall_push_late; auto. }
-    destruct h; try exact Hsame; destruct m; try exact Hsame.
+    destruct h; try exact Hsame; destruct m; try exact Hsame;
+      try (specialize (Hpush hi eq_refl));
+      try (assert (Hlc' : Forall (fun p : Z * Z => 0 <= fst p < snd p /\ snd p <= lg) ((c, hi) :: lc))
+             by (constructor; [cbn; lia | exact Hlacc])).
     + fin bs tl.
     + fin bs tl.
       * exists [], ep. split; reflexivity.
@@ -193,10 +210,10 @@ Qed.
 
 Lemma InvC_step : forall s e, InvA s -> InvC s -> InvC (fst (step s e)).
 Proof.
-  intros [ps lg st h c pe la m g sl r ep ak ar ds] e HA [Htags Hnone Hns].
+  intros [ps lg st h c pe la lc m g sl r ep ak ar ds] e HA [Htags Hnone Hns].
   destruct HA as [Hres Hcur Hack Hpush Hst Hpers Hlate _ _].
   cbn [resume cur logs hnd epochs acked acked_r stored pers late gen stale dsr] in *.
-  assert (Hsame : InvC (mk ps lg st h c pe la m g sl r ep ak ar ds)) by (constructor; cbn; auto).
+  assert (Hsame : InvC (mk ps lg st h c pe la lc m g sl r ep ak ar ds)) by (constructor; cbn; auto).
   assert (Htags' : Forall (fun gv : nat * Z => (fst gv <= S g)%nat) (push_late g pe la)).
   { apply Forall_push_late; [|intros; cbn; lia]. eapply Forall_impl; [|exact Htags]. cbn. intros; lia. }
   assert (Hfresh : Forall (fun gv : nat * Z => fst gv = S g -> snd gv <= 0) (push_late g pe la)).
@@ -243,6 +260,11 @@ Proof.
       destruct (Hns Hsl) as (H1 & H2 & H3 & H4 & H5).
       pose proof (Forall_nth_error _ _ _ _ H3 Hn) as Hv. cbn in Hv.
       repeat split; auto. { apply Hv. lia. } apply Forall_remove_nth; auto.
+  - (* LateAccept *)
+    destruct (nth_error lc k) as [[c0 hi]|] eqn:Hn; try exact Hsame.
+    cbn. constructor; cbn; auto.
+    intros Hsl. destruct (Hns Hsl) as (H1 & H2 & H3 & H4 & H5). repeat split; auto.
+    intros i Hi. apply in_or_app. left. auto.
   - (* StopReq *)
     destruct m, h; try exact Hsame; (cbn; constructor; cbn; auto).
   - (* Halt *)
@@ -306,18 +328,18 @@ Qed.
 Definition after_fetch_push (s : state) : state :=
   let c := cur s in
   let hi := c + Z.min (Z.max 1 (psz s)) (logs s - c) in
-  mk (psz s) (logs s) (stored s) HSend hi (pers s) (late s) (mgr s) (gen s) (stale s) (resume s)
+  mk (psz s) (logs s) (stored s) HSend hi (pers s) (late s) (lacc s) (mgr s) (gen s) (stale s) (resume s)
      (add_batch (page c hi) (epochs s)) (Z.max (acked s) hi) (Z.max (acked_r s) hi)
      (dsr s ++ page c hi).
 
 Lemma fetch_push : forall s, hnd s = HIdle -> cur s < logs s ->
   run_from s [Fetch; PushOk] = after_fetch_push s /\ all_enabled s [Fetch; PushOk] = true.
 Proof.
-  intros [ps lg st h c pe la m g sl r ep ak ar ds] Hh Hlt. cbn in Hh, Hlt. subst h.
+  intros [ps lg st h c pe la lc m g sl r ep ak ar ds] Hh Hlt. cbn in Hh, Hlt. subst h.
   assert (Hk : (Z.min (Z.max 1 ps) (lg - c) <=? 0) = false) by (apply Z.leb_gt; lia).
   unfold all_enabled, after_fetch_push.
   cbn [run_from outs_from step fst snd]. rewrite Hk.
-  cbn [run_from outs_from step fst snd app existsb refusedb negb orb psz logs stored cur pers late mgr gen
+  cbn [run_from outs_from step fst snd app existsb refusedb negb orb psz logs stored cur pers late lacc mgr gen
        stale resume epochs acked acked_r dsr]. split; reflexivity.
 Qed.
 
@@ -329,13 +351,13 @@ Lemma progress_step : forall s, InvA s -> started s = true -> cur s < logs s ->
   logs s' = logs s /\ resume s' = resume s.
 Proof.
   intros s HA Hst Hlt.
-  destruct s as [ps lg st h c pe la m g sl r ep ak ar ds].
+  destruct s as [ps lg st h c pe la lc m g sl r ep ak ar ds].
   pose proof (a_push _ HA) as Hpush. cbn in Hpush, Hlt.
   unfold started in Hst. cbn in Hst.
   destruct h; try discriminate; destruct m; try discriminate.
   - (* HIdle *)
     cbv zeta. unfold progress_sched. cbn [hnd].
-    destruct (fetch_push (mk ps lg st HIdle c pe la MIdle g sl r ep ak ar ds) eq_refl Hlt) as [Hr He].
+    destruct (fetch_push (mk ps lg st HIdle c pe la lc MIdle g sl r ep ak ar ds) eq_refl Hlt) as [Hr He].
     rewrite Hr, He. unfold after_fetch_push, delivered, started. cbn.
     repeat split; auto; try lia. apply In_delivered_add, In_page. lia.
   - (* HPush *)
@@ -396,7 +418,7 @@ Definition stale_store (o : output) : bool := match o with OStore _ true => true
 Lemma stale_step : forall s e,
   stale (fst (step s e)) = stale s || existsb stale_store (snd (step s e)).
 Proof.
-  intros [ps lg st h c pe la m g sl r ep ak ar ds] e.
+  intros [ps lg st h c pe la lc m g sl r ep ak ar ds] e.
   destruct e; cbn [step];
     repeat match goal with
            | |- context [match ?x with _ => _ end] => destruct x
